@@ -213,6 +213,27 @@ func newLiveEnv() *liveEnv {
 		}
 		return connect.NewResponse(reply(0)), nil
 	}, hopts...))
+	// a peer that sends its response headers at once (grpc-go's SendHeader, a proxy,
+	// a handler that flushes) and then waits for the end of the request's context
+	mux.HandleFunc("/verif.Svc/Early", func(w http.ResponseWriter, req *http.Request) {
+		o := e.get(req.Header.Get("X-Call"))
+		defer close(o.returned)
+		w.Header().Set("Content-Type", req.Header.Get("Content-Type"))
+		w.WriteHeader(200)
+		if f, ok := w.(http.Flusher); ok {
+			f.Flush()
+		}
+		if req.Header.Get("X-Read") == "1" {
+			go func() { _, _ = io.Copy(io.Discard, req.Body) }()
+		}
+		select {
+		case <-req.Context().Done():
+			o.mu.Lock()
+			o.CtxDone, o.CtxErr = true, req.Context().Err().Error()
+			o.mu.Unlock()
+		case <-time.After(handlerCtxWait):
+		}
+	})
 	e.srv1 = httptest.NewUnstartedServer(mux)
 	e.srv1.Start()
 	e.srv2 = httptest.NewUnstartedServer(mux)
@@ -1000,6 +1021,18 @@ func liveFamily(r *h.Run, rng *h.Rng, fam string, cancelMode bool) {
 			}
 		}
 	}
+	// response headers already received, request side still open (HTTP/2)
+	for _, kind := range []string{"client", "bidi"} {
+		for _, proto := range protos {
+			for _, blocked := range []bool{false, true} {
+				deadline := rng.Bool()
+				e.liveEarlyHeaders(r, fam, kind, proto, blocked, deadline)
+				if r.Thorough() {
+					e.liveEarlyHeaders(r, fam, kind, proto, blocked, !deadline)
+				}
+			}
+		}
+	}
 	// a handler that returns the error of a context of its own
 	for _, proto := range protos {
 		for _, h2 := range []bool{false, true} {
@@ -1027,4 +1060,88 @@ func liveFamily(r *h.Run, rng *h.Rng, fam string, cancelMode bool) {
 			e.liveCancel(r, rng, fam, cb.kind, protos[rng.Intn(3)], h2, cb.instant, rng.Bool())
 		}
 	}
+}
+
+// liveEarlyHeaders: the peer has sent its response headers while the request
+// side is still open (HTTP/2); then the context ends while the client is idle,
+// or during a Send blocked on flow control.
+func (e *liveEnv) liveEarlyHeaders(r *h.Run, fam, kind, proto string, blockedSend, deadline bool) {
+	c := &liveCall{r: r, mode: "C15", fam: fam, kind: kind, proto: proto, h2: true, prog: hprog{WaitCtx: true}}
+	c.id = fmt.Sprint(e.seq.Add(1))
+	c.obs = e.get(c.id)
+	c.cc = &countingClient{inner: e.srv2.Client()}
+	client := connect.NewClient[h.Raw, h.Raw](c.cc, e.srv2.URL+"/verif.Svc/Early", liveClientOpts(proto)...)
+	want := connect.CodeCanceled.String()
+	var ctx context.Context
+	var cancel context.CancelFunc
+	if deadline {
+		want = connect.CodeDeadlineExceeded.String()
+		ctx, cancel = context.WithTimeout(context.Background(), 150*time.Millisecond)
+	} else {
+		ctx, cancel = context.WithCancel(context.Background())
+	}
+	defer cancel()
+	r.Eval(fam, fmt.Sprintf("early/%s/%s/%v/%v", kind, proto, blockedSend, deadline))
+	var send func(*h.Raw) error
+	var hdr http.Header
+	if kind == "bidi" {
+		st := client.CallBidiStream(ctx)
+		hdr, send = st.RequestHeader(), st.Send
+	} else {
+		st := client.CallClientStream(ctx)
+		hdr, send = st.RequestHeader(), st.Send
+	}
+	hdr.Set("X-Call", c.id)
+	if !blockedSend {
+		hdr.Set("X-Read", "1")
+	}
+	c.log = append(c.log, "[the peer sends response headers at once and waits]")
+	if err, ok := c.step("Send", func() error { return send(bigMsg(16)) }); !ok {
+		return
+	} else if err != nil {
+		c.r.Fail(h.Failure{Key: "live/unexpected", Family: fam, What: "Send failed on a live context: " + err.Error(), Input: c.input()})
+		return
+	}
+	if blockedSend {
+		if !deadline {
+			go func() { time.Sleep(80 * time.Millisecond); cancel() }()
+		}
+		var err error
+		ok := true
+		for i := 0; i < 64 && err == nil && ok; i++ {
+			err, ok = c.step("Send(256KiB)", func() error { return send(bigMsg(256 << 10)) })
+		}
+		if !ok {
+			return
+		}
+		if err == nil {
+			r.Note("live_cancel: 64 x 256KiB did not block the sender (early headers, %s %s)", kind, proto)
+		} else if got := liveCls(err); got != want && got != "eof" {
+			c.r.Fail(h.Failure{Key: "cancel/code/Send", Family: fam, What: "a Send interrupted by the end of the context failed with " + got, Input: c.input(), Expected: want, Actual: got})
+		}
+	} else {
+		time.Sleep(40 * time.Millisecond) // idle
+		if deadline {
+			<-ctx.Done()
+		} else {
+			cancel()
+		}
+		c.log = append(c.log, "[the context ends while the client is idle]")
+	}
+	if !c.handlerReturned(handlerCtxWait + time.Second) {
+		c.r.Fail(h.Failure{Key: "handler-ctx/handler-did-not-return", Family: fam, What: "the peer's handler did not return", Input: c.input()})
+		return
+	}
+	c.obs.mu.Lock()
+	done := c.obs.CtxDone
+	c.obs.mu.Unlock()
+	if !done {
+		key := "handler-ctx/not-cancelled"
+		if blockedSend {
+			// net/http's HTTP/2 transport is parked on flow control: closing the request pipe does not reach it
+			key = "handler-ctx/http2/blocked-send-after-headers"
+		}
+		c.r.Fail(h.Failure{Key: key, Family: fam, What: fmt.Sprintf("response headers had arrived and the request side was open: the peer's context did not end within %v of the client's", handlerCtxWait), Input: c.input()})
+	}
+	r.Sample(fam, c.input())
 }
